@@ -13,7 +13,9 @@ def encode_timedelta(obj):
 
 def encode_datetime(obj):
     units, _ = np.datetime_data(obj.dtype)
-    reference = obj[0]
+    # first valid element, whatever the number of dimensions
+    valid = obj[~np.isnat(obj)]
+    reference = valid[0] if valid.size else np.datetime64(0, units)
 
     encoding = {"reference": str(reference), "units": units}
     encoded = (obj - reference).astype("int64").tolist()
